@@ -355,7 +355,13 @@ contract(OM + "_process_order", props=P + ["C04", "C11", "C03"],
          # then abandoned atomically: nothing of it has happened.
          # C04: a limit / stop-limit order never trades at an effective price worse than its limit, up to half a unit of the
          # quote precision -- stated on the very maps that are recorded as the fill (amounts after rounding)
-         site_pre={"add_fill#0": [("limit_bound", "implies(typeis(order, 'LimitOrder') or typeis(order, 'StopLimitOrder'), "
+         site_pre={"__add__#0": [
+                       # C09: the fee recorded with a fill is the percentage of the quote amount actually booked (cumulative,
+                       # minus what was already charged), rounded up to the quote precision -- not of some other amount
+                       ("fee_of_booked_amount", "implies(typeis(self._ctx.fee_strategy, 'Percentage'), at(fees, oq(order)) == "
+                                                "q_up(pct_pending(self._ctx.fee_strategy, order, balance_updates, oq(order)), qp_of(self, order)))")],
+                   "add_fill#0": [
+                       ("limit_bound", "implies(typeis(order, 'LimitOrder') or typeis(order, 'StopLimitOrder'), "
                                                   "(abs(at(balance_updates, oq(order))) <= order._limit_price * abs(at(balance_updates, ob(order))) + unit(qp_of(self, order)) / 2) if is_buy(order) "
                                                   "else (abs(at(balance_updates, oq(order))) >= order._limit_price * abs(at(balance_updates, ob(order))) - unit(qp_of(self, order)) / 2))")]},
          raises={"Error": [("atomic", "unchanged(om_acc(self)) and order._state == old(order._state) and content_unchanged(order._balance_updates, order._fees, order._fills) "
